@@ -32,6 +32,9 @@ type PrioSc struct {
 	// an actor per item releases it later, so releases come in any order relative to
 	// receipt (Handlers[k mod len] is the behaviour for the k-th item).
 	Dispatch bool  `json:"dispatch,omitempty"`
+	// ReuseMap: the caller clears and reuses the map it passed as Inputs once the
+	// constructor has returned (the discipline must have taken what it needs).
+	ReuseMap bool `json:"reuse_map,omitempty"`
 	Horizon  int64 `json:"horizon"`
 }
 
@@ -320,7 +323,7 @@ func genPrio(engine, prop string, r *simrt.SplitMix) *PrioSc {
 		prios = append([]uint(nil), prioSets[r.Intn(len(prioSets))]...)
 		sc.Divider = pick(r, "fair", "rate", "rate", "custom")
 		n := len(prios)
-		sc.H = pick(r, n, n, n+1, n+2, 2*n, 2*n+1, 6, 7, 11, between(r, n, n+10))
+		sc.H = pick(r, n, n, n+1, n+2, 2*n, 2*n+1, 6, 7, 11, between(r, n, n+10*scale))
 
 		if sc.H < n {
 			sc.H = n
@@ -409,7 +412,7 @@ func genPrio(engine, prop string, r *simrt.SplitMix) *PrioSc {
 	case "normal", "withhold", "fault", "createfault":
 		for _, p := range prios {
 			in := PInput{Prio: p, Cap: pick(r, 0, 0, 1, 2, 5, 16), Close: true}
-			total := pick(r, 0, 1, 3, between(r, 0, 25), between(r, 0, 25))
+			total := pick(r, 0, 1, 3, between(r, 0, 25*scale), between(r, 0, 25*scale))
 
 			if in.Cap > 0 && r.Intn(3) == 0 {
 				in.Prefill = min(in.Cap, total)
@@ -499,7 +502,7 @@ func genPrio(engine, prop string, r *simrt.SplitMix) *PrioSc {
 			sc.Ctl = append(sc.Ctl, PAction{Kind: "graceful"})
 		}
 	case "saturate", "single":
-		rounds := between(r, 2, 6)
+		rounds := between(r, 2, 6*scale)
 
 		for i, p := range prios {
 			n := h * (rounds + 3)
@@ -545,7 +548,7 @@ func genPrio(engine, prop string, r *simrt.SplitMix) *PrioSc {
 	case "stop":
 		for _, p := range prios {
 			in := PInput{Prio: p, Cap: pick(r, 0, 0, 1, 4, 16), Close: r.Intn(2) == 0}
-			total := pick(r, 0, 2, between(r, 0, 30), between(r, h, 3*h))
+			total := pick(r, 0, 2, between(r, 0, 30*scale), between(r, h, 3*h))
 
 			if in.Cap > 0 && r.Intn(2) == 0 {
 				in.Prefill = min(in.Cap, total)
@@ -586,13 +589,13 @@ func genPrio(engine, prop string, r *simrt.SplitMix) *PrioSc {
 		// initial inputs plus channels that are added, replaced, removed, re-added
 		for _, p := range prios {
 			in := PInput{Prio: p, Cap: pick(r, 0, 1, 4, 16), Close: true}
-			in.Bursts = mkBursts(between(r, 0, 20))
+			in.Bursts = mkBursts(between(r, 0, 20*scale))
 			sc.Inputs = append(sc.Inputs, in)
 		}
 
 		nInit := len(sc.Inputs)
 
-		extra := between(r, 1, 4)
+		extra := between(r, 1, 4*scale)
 		for k := 0; k < extra; k++ {
 			var p uint
 
@@ -635,6 +638,8 @@ func genPrio(engine, prop string, r *simrt.SplitMix) *PrioSc {
 	if sc.plain() && (sc.Class == "normal" || sc.Class == "fault" || sc.Class == "dynamic" || sc.Class == "stop") && r.Intn(4) == 0 {
 		sc.Dispatch = true
 	}
+
+	sc.ReuseMap = r.Intn(4) == 0
 
 	// stop scenarios: a second, concurrent Stop / a GracefulStop after Stop
 	if sc.Class == "stop" && r.Intn(3) == 0 {
@@ -938,6 +943,14 @@ func buildPrio(sc *PrioSc) (simrt.Config, func()) {
 
 		simrt.NameRecv(h.errCh, "err")
 		simrt.Note("new", int64(sc.H), 0)
+
+		if sc.ReuseMap {
+			for p := range inputs {
+				delete(inputs, p)
+			}
+
+			inputs[987654321] = nil
+		}
 
 		// Err reader: its closure is the termination signal every engine has
 		simrt.GoEnv("err-reader", func() {
